@@ -54,6 +54,9 @@ func init() {
 		// same bucket as D1, identical for the first 8 / first 31 bytes: digests that differ only late
 		{refcar.MhSha256, latePrefix(D1, 8), 19},
 		{refcar.MhSha256, latePrefix(D1, 31), 23},
+		// a very wide digest (an identity CID just under / over the default 2 KiB CID limit is legal;
+		// the write side has no width limit, so the read side must take it back)
+		{refcar.MhIdentity, d(0x40, 2100), 29},
 	}
 }
 
@@ -374,13 +377,13 @@ func init() {
 		Gen:    genC11,
 		Run:    runC11,
 		Decode: kit.DecodeAs[C11Case],
-		Rule: "every record multiset up to the bound over 16 records (4 hash codes, widths 0/1/20/32/64/65, equal digests under different codes, duplicate digests at different offsets, exact duplicates, offsets up to 2^63) x ALL load-order permutations x both codecs; " +
+		Rule: "every record multiset up to the bound over 17 records (4 hash codes, widths 0/1/20/32/64/65/2100, equal digests under different codes, duplicate digests at different offsets, exact duplicates, offsets up to 2^63) x ALL load-order permutations x both codecs; " +
 			"plus Flatten(session index) vs GenerateIndex(finished file) for every put history up to the bound; non-trivial = >=2 records",
 		Bound: func(tier string) map[string]any {
 			if tier == "thorough" {
-				return map[string]any{"multiset_size": 5, "records": 16, "permutations": "all", "flatten_history_len": 3}
+				return map[string]any{"multiset_size": 5, "records": 17, "permutations": "all", "flatten_history_len": 3}
 			}
-			return map[string]any{"multiset_size": 4, "records": 16, "permutations": "all", "flatten_history_len": 2}
+			return map[string]any{"multiset_size": 4, "records": 17, "permutations": "all", "flatten_history_len": 2}
 		},
 		Assumptions: []string{"refcar index codec is correct"},
 	})
